@@ -1,7 +1,688 @@
 /-
-  Property C01 — theorems about QEModel.C01 (stub; to be filled in).
+  Property C01 — DiscreteDP.solve returns an optimal (or ε-optimal) policy and value:
+  theorems about the executable model `QEModel.C01` (the definitions the driver runs),
+  over an arbitrary linearly ordered field `K` (ℚ, ℝ, …).
+
+  Vocabulary (defined in `QEProofs/Lemmas/C01Bellman.lean`, `C01Basic.lean`):
+    `WF P`          every state has a feasible action, the action labels of a state are
+                    distinct, every transition row is a probability vector over the states;
+    `Feasible P σ`  σ names a feasible action in every state;
+    `supDist v w`   the executed `np.abs(v - w).max()`  (sup-norm distance);
+    `LeAdd c v w`   `v ≤ w + c` entrywise;
+    a fixed point `vS` of `bellman P β` is *the* optimal value (`vStar_unique`,
+    `vStar_dominates`: it dominates the value of every feasible policy and is attained by
+    its own greedy policy; `vStar_exists` shows one exists over ℝ).
 -/
 import QEModel.C01
+import QEProofs.Lemmas.C01Loops
+import QEProofs.Lemmas.C01Mpi
+import QEProofs.Lemmas.C01Exists
+import QEProofs.Lemmas.C01Forms
+import QEProofs.Lemmas.C01More
+import QEProofs.Lemmas.C01Solve
+import QEProofs.Lemmas.C01Term
+import QEProofs.Lemmas.C01Lp
+set_option linter.unusedSectionVars false
+
 namespace QE.C01
+open List
+
+variable {K : Type} [Field K] [LinearOrder K] [IsStrictOrderedRing K]
+
+/-! ## the operators are β-contractions in the sup norm -/
+
+/-- **T1 `bellman_contracting`.** For `β ≥ 0` and (sub)stochastic rows the Bellman operator
+    contracts the executed sup-distance by `β`; so does every policy operator `T_σ`. -/
+theorem bellman_contracting {P : Prob K} (hP : WF P) {β : K} (hβ : 0 ≤ β) {v w : List K}
+    (h : v.length = w.length) :
+    supDist (bellman P β v) (bellman P β w) ≤ β * supDist v w ∧
+    ∀ σ : List ℕ, supDist (tSigma P β σ v) (tSigma P β σ w) ≤ β * supDist v w :=
+  have hs : ∀ acts ∈ P, ∀ x ∈ acts, SubStoch x := fun a ha x hx => (hP.stoch a ha x hx).sub
+  ⟨bellman_supDist hs hβ h, fun σ => tSigma_supDist hs hβ σ h⟩
+
+/-- **the Bellman step is the state-wise maximum.** For a state with feasible pairs `acts ≠ []`, the
+    entry of `bellman` is `r + β q·v` of one of its pairs and is `≥` that of every pair; the entry
+    of `greedy` is the label of that pair. -/
+theorem bellman_spec (β : K) (v : List K) (acts : List (Act K)) (h : acts ≠ []) :
+    bestAct β v acts ∈ acts ∧ ∀ y ∈ acts, qval β v y ≤ qval β v (bestAct β v acts) :=
+  ⟨bestAct_mem h, bestAct_ge⟩
+
+/-- monotonicity with shift: `v ≤ w + c` entrywise (`c ≥ 0`) implies `T v ≤ T w + β c` -/
+theorem bellman_monotone_shift {P : Prob K} (hP : WF P) {β c : K} (hβ : 0 ≤ β) (hc : 0 ≤ c)
+    {v w : List K} (h : LeAdd c v w) : LeAdd (β * c) (bellman P β v) (bellman P β w) :=
+  bellman_leAdd (fun a ha x hx => (hP.stoch a ha x hx).sub) hβ hc h
+
+/-- the optimal value is unique: two fixed points of `T` (of the right length) coincide -/
+theorem vStar_unique {P : Prob K} (hP : WF P) {β : K} (hβ0 : 0 ≤ β) (hβ1 : β < 1) {v w : List K}
+    (fv : bellman P β v = v) (fw : bellman P β w = w) : v = w := by
+  have hs : ∀ acts ∈ P, ∀ x ∈ acts, SubStoch x := fun a ha x hx => (hP.stoch a ha x hx).sub
+  have hv : v.length = P.length := by rw [← fv]; simp
+  have hw : w.length = P.length := by rw [← fw]; simp
+  exact (contr_bellman hs hβ0).fp_unique hβ1 hv hw fv fw
+
+/-- **T1 `vStar_dominates`.** A fixed point `vS` of the Bellman operator dominates the value
+    `w` (fixed point of `T_σ`) of every feasible policy `σ`, and its own greedy policy attains
+    it — so `vS` is the optimum the property speaks about, not merely a fixed point. -/
+theorem vStar_dominates {P : Prob K} (hP : WF P) {β : K} (hβ0 : 0 ≤ β) (hβ1 : β < 1)
+    {vS : List K} (hS : bellman P β vS = vS) :
+    (∀ (σ : List ℕ) (w : List K), Feasible P σ → tSigma P β σ w = w → LeAdd 0 w vS) ∧
+    Feasible P (greedy P β vS) ∧ tSigma P β (greedy P β vS) vS = vS := by
+  have hs : ∀ acts ∈ P, ∀ x ∈ acts, SubStoch x := fun a ha x hx => (hP.stoch a ha x hx).sub
+  refine ⟨?_, greedy_feasible hP.nonempty β vS, by rw [tSigma_greedy hP.nonempty hP.nodup, hS]⟩
+  intro σ w hf hw
+  have hSl : vS.length = P.length := by rw [← hS]; simp
+  have hσl : σ.length = P.length := (Forall₂.length_eq hf).symm
+  have hwl : w.length = P.length := by rw [← hw, tSigma_length, hσl]; simp
+  have hlen : w.length = vS.length := hwl.trans hSl.symm
+  -- d = max(0, max_i (w_i - vS_i)); w = T_σ w ≤ T w ≤ T vS + β d = vS + β d, hence d ≤ β d
+  have hd0 := exc_nonneg w vS
+  have h1 : LeAdd (exc w vS) w vS := leAdd_exc hlen
+  have h2 : LeAdd (β * exc w vS) (bellman P β w) (bellman P β vS) := bellman_leAdd hs hβ0 hd0 h1
+  have h3 : LeAdd 0 (tSigma P β σ w) (bellman P β w) := tSigma_le_bellman hf β w
+  rw [hw] at h3
+  rw [hS] at h2
+  have h4 : LeAdd (0 + β * exc w vS) w vS := h3.trans h2
+  have h5 : exc w vS ≤ 0 + β * exc w vS :=
+    (exc_le_iff hlen _).mpr ⟨by have := mul_nonneg hβ0 hd0; linarith, h4⟩
+  have h6 : exc w vS = 0 := by nlinarith
+  rw [← h6]; exact h1
+
+/-! ## value iteration -/
+
+/-- **T1 `vi_stop_half_eps`.** If the model's value iteration leaves its loop through the
+    tolerance test (i.e. before / not because of the iteration cap), the returned `v` is
+    within `ε/2` of the optimal value `vS` in the sup norm.  The branch `β = 0`
+    (`tol = ∞`: one application of `T` is exact) is included. -/
+theorem vi_stop_half_eps {P : Prob K} (hP : WF P) {β ε : K} (hβ0 : 0 ≤ β) (hβ1 : β < 1)
+    (hε : 0 < ε) {vInit : List K} (hv0 : vInit.length = P.length) (maxIter : ℕ)
+    {vS : List K} (hS : bellman P β vS = vS)
+    (hstop : (valueIteration P β ε vInit maxIter).stopped = true) :
+    supDist (valueIteration P β ε vInit maxIter).v vS < ε / 2 := by
+  have hs : ∀ acts ∈ P, ∀ x ∈ acts, SubStoch x := fun a ha x hx => (hP.stoch a ha x hx).sub
+  have hC := contr_bellman hs hβ0
+  have hSl : vS.length = P.length := by rw [← hS]; simp
+  obtain ⟨u, hu, hres, hpass⟩ := opIter_stopped (bellman P β) (viTol β ε)
+    (fun v => v.length = P.length) (fun v _ => by simp) maxIter vInit 0 hv0 hstop
+  show supDist (opIter (bellman P β) (viTol β ε) maxIter vInit 0).1 vS < ε / 2
+  rw [hres]
+  have hb := hC.stop_bound hβ0 hβ1 hS hSl hu
+  by_cases hβ : 0 < β
+  · simp only [viTol, if_pos hβ, Tol.passes, decide_eq_true_eq] at hpass
+    have hpos : 0 < 1 - β := by linarith
+    have : β / (1 - β) * (ε * (1 - β) / ((1 + 1) * β)) = ε / 2 := by
+      field_simp; ring
+    have h2 : β / (1 - β) * supDist (bellman P β u) u < β / (1 - β) * (ε * (1 - β) / ((1 + 1) * β)) :=
+      mul_lt_mul_of_pos_left hpass (div_pos hβ hpos)
+    linarith
+  · have hβz : β = 0 := le_antisymm (not_lt.mp hβ) hβ0
+    rw [hβz] at hb
+    simp only [zero_div, zero_mul] at hb
+    rw [hβz]
+    linarith
+
+/-- **T1 `vi_policy_eps_optimal`.** Under the same exit condition the returned policy is
+    `ε`-optimal: its value `w` (any fixed point of `T_σ` of the right length) is within `ε` of
+    the optimal value; and the policy is feasible. -/
+theorem vi_policy_eps_optimal {P : Prob K} (hP : WF P) {β ε : K} (hβ0 : 0 ≤ β) (hβ1 : β < 1)
+    (hε : 0 < ε) {vInit : List K} (hv0 : vInit.length = P.length) (maxIter : ℕ)
+    {vS : List K} (hS : bellman P β vS = vS)
+    (hstop : (valueIteration P β ε vInit maxIter).stopped = true)
+    {w : List K} (hw : tSigma P β (valueIteration P β ε vInit maxIter).sigma w = w) :
+    Feasible P (valueIteration P β ε vInit maxIter).sigma ∧ supDist w vS < ε := by
+  have hs : ∀ acts ∈ P, ∀ x ∈ acts, SubStoch x := fun a ha x hx => (hP.stoch a ha x hx).sub
+  have hC := contr_bellman hs hβ0
+  have hSl : vS.length = P.length := by rw [← hS]; simp
+  have hhalf := vi_stop_half_eps hP hβ0 hβ1 hε hv0 maxIter hS hstop
+  obtain ⟨u, hu, hres, hpass⟩ := opIter_stopped (bellman P β) (viTol β ε)
+    (fun v => v.length = P.length) (fun v _ => by simp) maxIter vInit 0 hv0 hstop
+  -- names: v = T u is the returned value, σ = greedy v
+  have hv : (valueIteration P β ε vInit maxIter).v = bellman P β u := hres
+  have hσ : (valueIteration P β ε vInit maxIter).sigma
+      = greedy P β (valueIteration P β ε vInit maxIter).v := rfl
+  rw [hv] at hhalf hσ
+  rw [hσ] at hw ⊢
+  refine ⟨greedy_feasible hP.nonempty β _, ?_⟩
+  set v := bellman P β u with hvdef
+  have hvl : v.length = P.length := by simp [hvdef]
+  have hσl : (greedy P β v).length = P.length := by simp
+  have hCσ := contr_tSigma hs hβ0 hσl
+  have hwl : w.length = P.length := by rw [← hw, tSigma_length, hσl]; simp
+  -- ‖w − v‖ ≤ 1/(1−β) ‖T_σ v − v‖ = 1/(1−β) ‖T v − T u‖ ≤ β/(1−β) ‖T u − u‖
+  have h1 := hCσ.fp_near hβ1 hw hwl hvl
+  rw [tSigma_greedy hP.nonempty hP.nodup] at h1
+  have h2 : supDist (bellman P β v) v ≤ β * supDist v u := hC.contr v u hvl hu
+  have hpos : 0 < 1 - β := by linarith
+  have htri : supDist w vS ≤ supDist w v + supDist v vS :=
+    supDist_triangle (hwl.trans hvl.symm) (hvl.trans hSl.symm)
+  by_cases hβ : 0 < β
+  · simp only [viTol, if_pos hβ, Tol.passes, decide_eq_true_eq] at hpass
+    have h3 : supDist w v ≤ 1 / (1 - β) * (β * supDist v u) :=
+      le_trans h1 (mul_le_mul_of_nonneg_left h2 (by positivity))
+    have h4 : 1 / (1 - β) * (β * supDist v u) < 1 / (1 - β) * (β * (ε * (1 - β) / ((1 + 1) * β))) :=
+      mul_lt_mul_of_pos_left (mul_lt_mul_of_pos_left hpass hβ) (by positivity)
+    have h5 : 1 / (1 - β) * (β * (ε * (1 - β) / ((1 + 1) * β))) = ε / 2 := by
+      field_simp; ring
+    linarith
+  · have hβz : β = 0 := le_antisymm (not_lt.mp hβ) hβ0
+    have h0 : supDist (bellman P β v) v ≤ 0 := by
+      have : β * supDist v u = 0 := by rw [hβz]; simp
+      linarith
+    have h3 : supDist w v ≤ 0 := by
+      have : 1 / (1 - β) * supDist (bellman P β v) v ≤ 0 :=
+        mul_nonpos_of_nonneg_of_nonpos (by positivity) h0
+      linarith
+    linarith
+
+/-- `num_iter` never exceeds `max_iter`, and equals it when the tolerance test never fired -/
+theorem vi_num_iter (P : Prob K) (β ε : K) (vInit : List K) (maxIter : ℕ) :
+    (valueIteration P β ε vInit maxIter).iters ≤ maxIter ∧
+    ((valueIteration P β ε vInit maxIter).stopped = false →
+      (valueIteration P β ε vInit maxIter).iters = maxIter) := by
+  have := opIter_count (bellman P β) (viTol β ε) maxIter vInit 0
+  simpa [valueIteration] using this
+
+/-! ## policy iteration -/
+
+/-- **T1 `pi_exit_optimal`.** Assume the linear solver does its job: for every feasible `σ`
+    the vector `evalPolicy solve P β σ` solves `(I − βQ_σ) v = R_σ`, i.e. is the fixed point of
+    `T_σ` (the assumption about LAPACK; `evalPolicy_fixed_of_solves` derives it from the matrix form
+    `SolvesExactly`).
+    If policy iteration leaves its loop through the `break` (the greedy policy repeated),
+    then the returned `v` satisfies the optimality equation `T v = v`, the returned `σ` is
+    feasible, `v` is the value of `σ`, and therefore (by `vStar_unique`, `vStar_dominates`)
+    `v` is the optimal value and `σ` an optimal policy. -/
+theorem pi_exit_optimal {P : Prob K} (hP : WF P) {β : K}
+    (solve : List (List K) → List K → List K)
+    (hsolve : ∀ σ, Feasible P σ →
+      tSigma P β σ (evalPolicy solve P β σ) = evalPolicy solve P β σ)
+    (vInit : List K) (maxIter : ℕ)
+    (hstop : (policyIteration solve P β vInit maxIter).stopped = true) :
+    let r := policyIteration solve P β vInit maxIter
+    bellman P β r.v = r.v ∧ Feasible P r.sigma ∧ tSigma P β r.sigma r.v = r.v ∧
+      r.sigma = greedy P β r.v := by
+  intro r
+  obtain ⟨h1, h2⟩ := piLoop_stopped (evalPolicy solve P β) (greedy P β) maxIter
+    (greedy P β vInit) [] 0 hstop
+  have hv : r.v = evalPolicy solve P β r.sigma := h1
+  have hg : greedy P β r.v = r.sigma := h2
+  have hf : Feasible P r.sigma := by rw [← hg]; exact greedy_feasible hP.nonempty β _
+  have hfix : tSigma P β r.sigma r.v = r.v := by rw [hv]; exact hsolve _ hf
+  refine ⟨?_, hf, hfix, hg.symm⟩
+  rw [← tSigma_greedy hP.nonempty hP.nodup, hg, hfix]
+
+/-- corollary: on `break`, the value returned by policy iteration *is* any given optimal value
+    and dominates the value of every feasible policy -/
+theorem pi_exit_value {P : Prob K} (hP : WF P) {β : K} (hβ0 : 0 ≤ β) (hβ1 : β < 1)
+    (solve : List (List K) → List K → List K)
+    (hsolve : ∀ σ, Feasible P σ →
+      tSigma P β σ (evalPolicy solve P β σ) = evalPolicy solve P β σ)
+    (vInit : List K) (maxIter : ℕ)
+    (hstop : (policyIteration solve P β vInit maxIter).stopped = true) :
+    (∀ vS, bellman P β vS = vS → (policyIteration solve P β vInit maxIter).v = vS) ∧
+    (∀ σ w, Feasible P σ → tSigma P β σ w = w →
+      LeAdd 0 w (policyIteration solve P β vInit maxIter).v) := by
+  have h := pi_exit_optimal hP solve hsolve vInit maxIter hstop
+  exact ⟨fun vS hS => vStar_unique hP hβ0 hβ1 h.1 hS, (vStar_dominates hP hβ0 hβ1 h.1).1⟩
+
+/-- What is assumed of `np.linalg.solve` / `spsolve` in exact arithmetic: on the system
+    `(I − βQ_σ) x = R_σ` that `evaluate_policy` poses for a feasible `σ` (matrix rows
+    `policyMatrix`, products `dot`), it returns a vector of the right length solving it. -/
+def SolvesExactly (solve : List (List K) → List K → List K) (P : Prob K) (β : K) : Prop :=
+  ∀ σ, Feasible P σ →
+    (evalPolicy solve P β σ).length = P.length ∧
+    Forall₂ (fun row b => dot row (evalPolicy solve P β σ) = b)
+      (policyMatrix β (polActs P σ)) ((polActs P σ).map fun y => y.r)
+
+/-- the linear system of `evaluate_policy` characterises the value of `σ`: a solver that
+    `SolvesExactly` returns the fixed point of `T_σ` -/
+theorem evalPolicy_fixed_of_solves {P : Prob K} (hP : WF P) {β : K}
+    {solve : List (List K) → List K → List K} (h : SolvesExactly solve P β)
+    {σ : List ℕ} (hf : Feasible P σ) :
+    tSigma P β σ (evalPolicy solve P β σ) = evalPolicy solve P β σ :=
+  tSigma_fixed_of_system hP hf (h σ hf).1 (h σ hf).2
+
+/-- `pi_exit_optimal` with the assumption on the solver in matrix form -/
+theorem pi_exit_optimal_of_solver {P : Prob K} (hP : WF P) {β : K}
+    {solve : List (List K) → List K → List K} (h : SolvesExactly solve P β)
+    (vInit : List K) (maxIter : ℕ)
+    (hstop : (policyIteration solve P β vInit maxIter).stopped = true) :
+    let r := policyIteration solve P β vInit maxIter
+    bellman P β r.v = r.v ∧ Feasible P r.sigma ∧ tSigma P β r.sigma r.v = r.v :=
+  have := pi_exit_optimal hP solve (fun _ hf => evalPolicy_fixed_of_solves hP h hf) vInit maxIter hstop
+  ⟨this.1, this.2.1, this.2.2.1⟩
+
+/-- `num_iter ≤ max_iter` for policy iteration -/
+theorem pi_num_iter (solve : List (List K) → List K → List K) (P : Prob K) (β : K)
+    (vInit : List K) (maxIter : ℕ) :
+    (policyIteration solve P β vInit maxIter).iters ≤ maxIter := by
+  have := piLoop_count (evalPolicy solve P β) (greedy P β) maxIter (greedy P β vInit) [] 0
+  simpa [policyIteration] using this
+
+/-- **T2 `vi_terminates`.** Over an Archimedean field (ℚ, ℝ) value iteration stops through its
+    tolerance test for every sufficiently large `max_iter`: the successive differences decay like
+    `βᵏ‖Tv₀ − v₀‖`.  Together with `vi_stop_half_eps` / `vi_policy_eps_optimal` this makes value
+    iteration totally correct for a large enough cap. -/
+theorem vi_terminates [Archimedean K] {P : Prob K} (hP : WF P) {β ε : K} (hβ0 : 0 ≤ β) (hβ1 : β < 1)
+    (hε : 0 < ε) {vInit : List K} (hv0 : vInit.length = P.length) :
+    ∃ N, ∀ maxIter, N ≤ maxIter → (valueIteration P β ε vInit maxIter).stopped = true := by
+  have hs : ∀ acts ∈ P, ∀ x ∈ acts, SubStoch x := fun a ha x hx => (hP.stoch a ha x hx).sub
+  have hC := contr_bellman hs hβ0
+  by_cases hβ : 0 < β
+  · have ht : 0 < ε * (1 - β) / ((1 + 1) * β) := by
+      apply div_pos (mul_pos hε (by linarith)) (by positivity)
+    obtain ⟨k, hk⟩ := hC.exists_pass hβ0 hβ1 hv0 ht
+    refine ⟨k + 1, fun maxIter hN => ?_⟩
+    apply opIter_stops (bellman P β) (viTol β ε) maxIter vInit 0 k (by omega)
+    simp only [viTol, if_pos hβ, Tol.passes, decide_eq_true_eq]
+    exact hk
+  · refine ⟨1, fun maxIter hN => ?_⟩
+    apply opIter_stops (bellman P β) (viTol β ε) maxIter vInit 0 0 (by omega)
+    simp [viTol, if_neg hβ, Tol.passes]
+
+/-- **a-priori bound, also at the cap.** Whether or not the tolerance test fired, after `num_iter`
+    sweeps the value returned by value iteration satisfies
+    `‖v − v*‖ ≤ β^num_iter/(1−β) · ‖T v₀ − v₀‖` (geometric convergence). -/
+theorem vi_cap_bound {P : Prob K} (hP : WF P) {β ε : K} (hβ0 : 0 ≤ β) (hβ1 : β < 1)
+    {vInit : List K} (hv0 : vInit.length = P.length) (maxIter : ℕ)
+    {vS : List K} (hS : bellman P β vS = vS) :
+    supDist (valueIteration P β ε vInit maxIter).v vS ≤
+      β ^ (valueIteration P β ε vInit maxIter).iters / (1 - β) *
+        supDist (bellman P β vInit) vInit := by
+  have hs : ∀ acts ∈ P, ∀ x ∈ acts, SubStoch x := fun a ha x hx => (hP.stoch a ha x hx).sub
+  have hSl : vS.length = P.length := by rw [← hS]; simp
+  have h := (opIter_eq_iterate (bellman P β) (viTol β ε) maxIter vInit 0).1
+  show supDist (opIter (bellman P β) (viTol β ε) maxIter vInit 0).1 vS ≤ _
+  rw [h, Nat.sub_zero]
+  exact (contr_bellman hs hβ0).iterate_bound hβ0 hβ1 hv0 hS hSl _
+
+/-! ## modified policy iteration -/
+
+/-- **T2 `mpi_stop`.** If modified policy iteration leaves its loop through the span test
+    (`span(Tv − v) < ε(1−β)/β`, or at once when `β = 0`), then the returned value
+    `Tv + midrange(Tv − v)·β/(1−β)` is within `ε/2` of the optimal value, the returned policy
+    (the `v`-greedy one) is feasible, and its value `w` is within `ε` of the optimum
+    (Puterman 6.6.5/6.6.6). Holds for every `k` (number of partial-evaluation sweeps) and every
+    `v_init` of the right length. -/
+theorem mpi_stop {P : Prob K} (hP : WF P) {β ε : K} (hβ0 : 0 ≤ β) (hβ1 : β < 1) (hε : 0 < ε)
+    {vInit : List K} (hv0 : vInit.length = P.length) (maxIter k : ℕ)
+    {vS : List K} (hS : bellman P β vS = vS)
+    (hstop : (modifiedPI P β ε vInit maxIter k).stopped = true) :
+    supDist (modifiedPI P β ε vInit maxIter k).v vS < ε / 2 ∧
+    Feasible P (modifiedPI P β ε vInit maxIter k).sigma ∧
+    ∀ w, tSigma P β (modifiedPI P β ε vInit maxIter k).sigma w = w → supDist w vS < ε := by
+  obtain ⟨v, hv, hpass, hres, hσ⟩ := mpiLoop_stopped P β (mpiTol β ε) k maxIter vInit [] 0 hv0 hstop
+  have hrv : (modifiedPI P β ε vInit maxIter k).v = _ := hres
+  have hrs : (modifiedPI P β ε vInit maxIter k).sigma = greedy P β v := hσ
+  rw [hrv, hrs]
+  obtain ⟨B2, B1, Bw⟩ := mpi_bounds hP hβ0 hβ1 hv hS
+  set u := bellman P β v with hu
+  set d := zipWith (fun a b => a - b) u v with hd
+  have hpos : 0 < 1 - β := by linarith
+  have hne : (1 : K) - β ≠ 0 := ne_of_gt hpos
+  have hSl : vS.length = P.length := by rw [← hS]; simp
+  set L := β * (vmin d / (1 - β)) with hL
+  set H := β * (vmax d / (1 - β)) with hH
+  -- the scalar fact: H − L < ε, and 0 ≤ H − L
+  have hHL0 : 0 ≤ H - L := by
+    have h1 := vmin_le_vmax d
+    have : H - L = β / (1 - β) * (vmax d - vmin d) := by rw [hH, hL]; field_simp
+    rw [this]
+    exact mul_nonneg (div_nonneg hβ0 hpos.le) (by linarith)
+  have hHL : H - L < ε := by
+    by_cases hβ : 0 < β
+    · simp only [mpiTol, if_pos hβ, Tol.passes, decide_eq_true_eq, span] at hpass
+      have : H - L = β / (1 - β) * (vmax d - vmin d) := by rw [hH, hL]; field_simp
+      rw [this]
+      have h2 : β / (1 - β) * (vmax d - vmin d) < β / (1 - β) * (ε * (1 - β) / β) :=
+        mul_lt_mul_of_pos_left hpass (div_pos hβ hpos)
+      have h3 : β / (1 - β) * (ε * (1 - β) / β) = ε := by field_simp
+      linarith
+    · have hβz : β = 0 := le_antisymm (not_lt.mp hβ) hβ0
+      have : H - L = 0 := by rw [hH, hL, hβz]; simp
+      linarith
+  have hmid : midrange d * β / (1 - β) = (L + H) / 2 := by
+    rw [hH, hL]; unfold midrange; field_simp; ring
+  rw [hmid]
+  refine ⟨?_, greedy_feasible hP.nonempty β v, ?_⟩
+  · -- u + L ≤ vS ≤ u + H entrywise, and the returned value is u + (L+H)/2
+    have hul : u.length = vS.length := by rw [hSl]; simp [hu]
+    refine (supDist_lt_iff (by simpa using hul) _).mpr ⟨by linarith, ?_⟩
+    have C1 : Forall₂ (fun a b => a ≤ b + (0 - L)) u vS := leAdd_addConst_left.mp B2
+    have C2 : Forall₂ (fun b a => b ≤ a + (H + 0)) vS u := leAdd_addConst_right.mp B1
+    have C := forall₂_and C1 C2.flip
+    unfold addConst
+    rw [forall₂_map_left_iff]
+    refine C.imp fun a b hab => ?_
+    obtain ⟨h1, h2⟩ := hab
+    rw [abs_lt]
+    constructor <;> linarith
+  · intro w hw
+    have hwB := Bw w hw
+    have hσl : (greedy P β v).length = P.length := by simp
+    have hwl : w.length = P.length := by rw [← hw, tSigma_length, hσl]; simp
+    have hdom : LeAdd 0 w vS :=
+      (vStar_dominates hP hβ0 hβ1 hS).1 _ w (greedy_feasible hP.nonempty β v) hw
+    -- vS ≤ u + H and u + L ≤ w give vS ≤ w + (H − L)
+    have D1 : LeAdd (H + 0) vS u := leAdd_addConst_right.mp B1
+    have D2 : LeAdd (0 - L) u w := leAdd_addConst_left.mp hwB
+    have D3 : LeAdd (H - L) vS w := (D1.trans D2).mono (by linarith)
+    have hcl : Close (H - L) w vS := (close_iff _ _ _).mpr ⟨hdom.mono hHL0, D3⟩
+    have := (supDist_le_iff (hwl.trans hSl.symm) (H - L)).mpr ⟨hHL0, hcl⟩
+    linarith
+
+/-- `num_iter ≤ max_iter` for modified policy iteration -/
+theorem mpi_num_iter (P : Prob K) (β ε : K) (vInit : List K) (maxIter k : ℕ) :
+    (modifiedPI P β ε vInit maxIter k).iters ≤ maxIter := by
+  have := mpiLoop_count P β (mpiTol β ε) k maxIter vInit [] 0
+  simpa [modifiedPI] using this
+
+/-! ## the formulations agree -/
+
+/-- **T1 `forms_agree` (product form).** `bellmanProd` is the product-form step as the code
+    performs it — `vals = R + βQv` with `-inf` rewards kept, `argmax(axis=1)`, value at the
+    arg-max.  If every state has a feasible action (what the constructor enforces), it returns,
+    state by state, exactly the value and the action label that the scan over the feasible
+    pairs (`bellman`/`greedy` on `ofProduct R Q`, the representation all solvers of the model
+    run on) returns; in particular `-inf` entries never win and ties are broken identically. -/
+theorem forms_agree_product (R : List (List (Option K))) (Q : List (List (List K))) (β : K)
+    (v : List K) (hfeas : ∀ p ∈ zip R Q, (rowCols p.1 p.2).filterMap colAct ≠ []) :
+    bellmanProd R Q β v =
+      zipWith (fun x a => (some x, a)) (bellman (ofProduct R Q) β v) (greedy (ofProduct R Q) β v) := by
+  rw [bellmanProd_eq_aux β v R Q hfeas]
+  simp [bellman, greedy, zipWith_map_left, zipWith_map_right]
+
+/-- **T1 `forms_agree` (state-action pairs in any order).** Two lists of pairs
+    `(s, a, r, q)` that are permutations of each other, with distinct `(s, a)`, are turned by
+    the constructor's re-sorting into the *same* problem; hence every solver of the model
+    returns the same `(v, σ, num_iter)` on both, and the optimal values coincide. -/
+theorem forms_agree_pairs (n : ℕ) {p₁ p₂ : List (ℕ × ℕ × K × List K)} (hp : p₁ ~ p₂)
+    (hnd : (p₁.map fun p => (p.1, p.2.1)).Nodup) : ofPairsZ n p₁ = ofPairsZ n p₂ :=
+  ofPairsZ_perm n hp hnd
+
+/-- **T1 `forms_agree` (`to_sa_pair_form`).** Listing the feasible pairs of a product-form
+    problem state by state (`np.where(R > -inf)`, what `to_sa_pair_form` and the LP method do) and
+    handing them to the pair constructor gives back the same problem — so the product form, its
+    pair form in any order (`forms_agree_pairs`) and the sparse variant (same data) share one
+    Bellman operator, one optimal value and the same solver outputs. -/
+theorem forms_agree_toSaPair (R : List (List (Option K))) (Q : List (List (List K))) :
+    ofPairsZ (ofProduct R Q).length (toPairs (ofProduct R Q)) = ofProduct R Q :=
+  ofPairsZ_toPairs _ (ofProduct_sorted R Q)
+
+/-- `ofPairsZ` is the driver's `ofPairs` on the zipped index / reward / transition arrays -/
+theorem ofPairs_is_ofPairsZ (n : ℕ) (sInd aInd : List ℕ) (R : List K) (Q : List (List K)) :
+    ofPairs n sInd aInd R Q = ofPairsZ n (zip sInd (zip aInd (zip R Q))) := rfl
+
+/-! ## ties, policy improvement, the LP certificate -/
+
+/-- **tie-breaking.** In every state the greedy action is the *first* maximiser in the order of
+    the feasible pairs (increasing action label after the constructor's sorting): every earlier
+    pair has a strictly smaller value, every later pair a value not larger. -/
+theorem greedy_first_max (β : K) (v : List K) (x : Act K) (xs : List (Act K)) :
+    ∃ l₁ l₂, x :: xs = l₁ ++ bestAct β v (x :: xs) :: l₂ ∧
+      (∀ y ∈ l₁, qval β v y < qval β v (bestAct β v (x :: xs))) ∧
+      (∀ y ∈ l₂, qval β v y ≤ qval β v (bestAct β v (x :: xs))) :=
+  scanMax_first (qval β v) xs x
+
+/-- **policy improvement.** If `v` is the value of a feasible policy `σ` and `w` the value of the
+    `v`-greedy policy, then `v ≤ w` entrywise: the values along policy iteration never decrease. -/
+theorem pi_improves {P : Prob K} (hP : WF P) {β : K} (hβ0 : 0 ≤ β) (hβ1 : β < 1)
+    {σ : List ℕ} (hf : Feasible P σ) {v w : List K} (hv : tSigma P β σ v = v)
+    (hw : tSigma P β (greedy P β v) w = w) : LeAdd 0 v w := by
+  have hs : ∀ acts ∈ P, ∀ x ∈ acts, SubStoch x := fun a ha x hx => (hP.stoch a ha x hx).sub
+  have hσl : σ.length = P.length := (Forall₂.length_eq hf).symm
+  have hvl : v.length = P.length := by rw [← hv, tSigma_length, hσl]; simp
+  have hgl : (greedy P β v).length = P.length := by simp
+  have hwl : w.length = P.length := by rw [← hw, tSigma_length, hgl]; simp
+  have hM := monoShift_tSigma hs hβ0 hgl
+  refine hM.sub hβ0 hβ1 hw hwl hvl ?_
+  rw [tSigma_greedy hP.nonempty hP.nodup]
+  have := tSigma_le_bellman hf β v
+  rwa [hv] at this
+
+/-- **LP optimality certificate.** What the simplex method on the dual LP delivers at status 0 —
+    a policy `σ` (the optimal basis) whose value is `v` (`T_σ v = v`: the basic solution's dual)
+    with all reduced costs non-positive (`r(s,a) + β q(s,a)·v ≤ v(s)`, i.e. `T v ≤ v`) — makes `v`
+    a fixed point of the Bellman operator, hence the optimal value, and `σ` optimal. -/
+theorem lp_certificate {P : Prob K} {β : K} {σ : List ℕ} (hf : Feasible P σ) {v : List K}
+    (hv : tSigma P β σ v = v) (hdual : LeAdd 0 (bellman P β v) v) : bellman P β v = v := by
+  have h := tSigma_le_bellman hf β v
+  rw [hv] at h
+  exact leAdd_antisymm hdual h
+
+/-- the default start vectors have the right length, so the theorems above apply to runs with
+    `v_init=None` -/
+theorem default_vinit_length (P : Prob K) (β : K) :
+    (rmax P).length = P.length ∧ (mpiInit P β).length = P.length := ⟨by simp, by simp⟩
+
+/-! ## policy iteration terminates -/
+
+/-- **T2 `pi_terminates`.** With an exact solver and `β ∈ [0,1)`, policy iteration leaves its loop
+    through the `break` as soon as `max_iter ≥ (number of feasible policies) + 2`, from every start
+    vector: the values never decrease (`pi_improves`), equal consecutive values make the next
+    greedy policy repeat, and a policy cannot recur after a strict increase.
+    (`allPolicies P` lists one action label per state in all possible ways.) -/
+theorem pi_terminates {P : Prob K} (hP : WF P) {β : K} (hβ0 : 0 ≤ β) (hβ1 : β < 1)
+    (solve : List (List K) → List K → List K)
+    (hsolve : ∀ σ, Feasible P σ →
+      tSigma P β σ (evalPolicy solve P β σ) = evalPolicy solve P β σ)
+    (vInit : List K) (maxIter : ℕ) (hN : (allPolicies P).length + 2 ≤ maxIter) :
+    (policyIteration solve P β vInit maxIter).stopped = true := by
+  unfold policyIteration
+  refine piLoop_terminates_aux (evalPolicy solve P β) (greedy P β) (allPolicies P) (LeAdd 0)
+    (fun a b c h1 h2 => by have := h1.trans h2; rwa [zero_add] at this)
+    (fun a b h1 h2 => leAdd_antisymm h1 h2) ?_ ?_ maxIter _ [] 0 []
+    (mem_allPolicies.mpr (greedy_feasible hP.nonempty β vInit)) (by simp) nodup_nil (by simp)
+    (by simp) (by simpa using hN)
+  · intro σ _
+    exact mem_allPolicies.mpr (greedy_feasible hP.nonempty β _)
+  · intro σ hσ
+    have hf := mem_allPolicies.mp hσ
+    exact pi_improves hP hβ0 hβ1 hf (hsolve σ hf) (hsolve _ (greedy_feasible hP.nonempty β _))
+
+/-- **policy iteration is totally correct** (exact solver, cap at least the number of feasible
+    policies + 2): it returns a fixed point of the Bellman operator — the optimal value, which
+    dominates the value of every feasible policy — and a feasible policy whose value it is. -/
+theorem pi_correct {P : Prob K} (hP : WF P) {β : K} (hβ0 : 0 ≤ β) (hβ1 : β < 1)
+    {solve : List (List K) → List K → List K} (h : SolvesExactly solve P β)
+    (vInit : List K) (maxIter : ℕ) (hN : (allPolicies P).length + 2 ≤ maxIter) :
+    let r := policyIteration solve P β vInit maxIter
+    bellman P β r.v = r.v ∧ Feasible P r.sigma ∧ tSigma P β r.sigma r.v = r.v ∧
+      ∀ σ w, Feasible P σ → tSigma P β σ w = w → LeAdd 0 w r.v := by
+  intro r
+  have hsolve := fun σ (hf : Feasible P σ) => evalPolicy_fixed_of_solves hP h hf
+  have hstop := pi_terminates hP hβ0 hβ1 solve hsolve vInit maxIter hN
+  have h1 := pi_exit_optimal hP solve hsolve vInit maxIter hstop
+  exact ⟨h1.1, h1.2.1, h1.2.2.1, (vStar_dominates hP hβ0 hβ1 h1.1).1⟩
+
+/-- **the observable exit criterion.** For each of the three iterative methods, `num_iter < max_iter`
+    implies that the loop was left through the method's own stopping rule (`stopped = true`) — the
+    hypothesis of `vi_stop_half_eps`, `pi_exit_optimal`, `mpi_stop` is what the property calls
+    "stops before the iteration cap". -/
+theorem stopped_of_before_cap (solve : List (List K) → List K → List K) (P : Prob K) (β ε : K)
+    (vInit : List K) (maxIter k : ℕ) :
+    ((valueIteration P β ε vInit maxIter).iters < maxIter →
+      (valueIteration P β ε vInit maxIter).stopped = true) ∧
+    ((policyIteration solve P β vInit maxIter).iters < maxIter →
+      (policyIteration solve P β vInit maxIter).stopped = true) ∧
+    ((modifiedPI P β ε vInit maxIter k).iters < maxIter →
+      (modifiedPI P β ε vInit maxIter k).stopped = true) := by
+  refine ⟨fun h => ?_, fun h => ?_, fun h => ?_⟩
+  · by_contra hc
+    have := (vi_num_iter P β ε vInit maxIter).2 (by simpa using hc)
+    omega
+  · by_contra hc
+    have := piLoop_count_eq (evalPolicy solve P β) (greedy P β) maxIter (greedy P β vInit) [] 0
+      (by simpa [policyIteration] using hc)
+    simp only [policyIteration] at h
+    omega
+  · by_contra hc
+    have := mpiLoop_count_eq P β (mpiTol β ε) k maxIter vInit [] 0 (by simpa [modifiedPI] using hc)
+    simp only [modifiedPI] at h
+    omega
+
+/-! ## linear programming -/
+
+/-- **T2 `lp_exit_partial`.**  About the model of `ddp_linprog_simplex` (tableau of the dual LP, `n`
+    pivots onto the start policy, `solve_tableau` with the lexicographic ratio test) over an
+    ordered field, for every start policy, pivot history and cap: if it reports success (status 0)
+    then the returned `v` is approximately dual feasible, `T v ≤ v + fea_tol` entrywise, and hence
+    bounds the optimal value from above up to `fea_tol/(1−β)`: `v* ≤ v + fea_tol/(1−β)`.
+    *Missing for the full clause:* the matching lower bound `v ≤ v*` and the optimality of the
+    returned policy; they need the canonical-form invariant of the simplex method (the basic
+    columns stay unit vectors and the basis stays a policy), which is not proved here — the
+    certificate `lp_certificate` says what that invariant would deliver, and the exact oracle of
+    the correspondence run checks both on every generated instance. -/
+theorem lp_exit_partial {P : Prob K} (hP : WF P) {β : K} (hβ0 : 0 ≤ β) (hβ1 : β < 1)
+    (tol : PivTol K) (σ0 : List ℕ) (maxIter : ℕ)
+    (hstop : (lpSolve tol P β σ0 maxIter).stopped = true)
+    {vS : List K} (hS : bellman P β vS = vS) :
+    LeAdd tol.fea (bellman P β (lpSolve tol P β σ0 maxIter).v) (lpSolve tol P β σ0 maxIter).v ∧
+    LeAdd (tol.fea / (1 - β)) vS (lpSolve tol P β σ0 maxIter).v := by
+  have hdual := lpSolve_dual_feasible hP tol σ0 maxIter hstop
+  refine ⟨hdual, ?_⟩
+  set v := (lpSolve tol P β σ0 maxIter).v with hv
+  have hvl : v.length = P.length := by rw [← hdual.length_eq]; simp
+  have hs : ∀ acts ∈ P, ∀ x ∈ acts, SubStoch x := fun a ha x hx => (hP.stoch a ha x hx).sub
+  have hM := monoShift_bellman hs hβ0
+  have hSl : vS.length = P.length := by rw [← hS]; simp
+  have hpos : 0 < 1 - β := by linarith
+  have hne : (1 : K) - β ≠ 0 := ne_of_gt hpos
+  -- w = v + δ/(1−β) is a super-solution
+  have hsup : LeAdd 0 (bellman P β (addConst v (tol.fea / (1 - β)))) (addConst v (tol.fea / (1 - β))) := by
+    rw [bellman_addConst hP β _ hvl, leAdd_addConst_right, leAdd_addConst_left]
+    have : tol.fea / (1 - β) + 0 - β * (tol.fea / (1 - β)) = tol.fea := by field_simp; ring
+    rw [this]; exact hdual
+  have h1 := hM.super hβ0 hβ1 hS hSl (by simp [hvl]) hsup
+  have h2 := leAdd_addConst_right.mp h1
+  rwa [add_zero] at h2
+
+/-- **LP, checked certificate.**  If, in addition to status 0, the returned policy is feasible and
+    the returned `v` is its value (`T_σ v = v`; the driver evaluates exactly this test on its exact
+    run and prints it as `rcert`), then `v ≤ v* ≤ v + fea_tol/(1−β)` entrywise: value and policy are
+    optimal to solver precision. -/
+theorem lp_certified {P : Prob K} (hP : WF P) {β : K} (hβ0 : 0 ≤ β) (hβ1 : β < 1)
+    (tol : PivTol K) (σ0 : List ℕ) (maxIter : ℕ)
+    (hstop : (lpSolve tol P β σ0 maxIter).stopped = true)
+    (hfeas : Feasible P (lpSolve tol P β σ0 maxIter).sigma)
+    (hval : tSigma P β (lpSolve tol P β σ0 maxIter).sigma (lpSolve tol P β σ0 maxIter).v
+      = (lpSolve tol P β σ0 maxIter).v)
+    {vS : List K} (hS : bellman P β vS = vS) :
+    LeAdd 0 (lpSolve tol P β σ0 maxIter).v vS ∧
+    LeAdd (tol.fea / (1 - β)) vS (lpSolve tol P β σ0 maxIter).v :=
+  ⟨(vStar_dominates hP hβ0 hβ1 hS).1 _ _ hfeas hval,
+   (lp_exit_partial hP hβ0 hβ1 tol σ0 maxIter hstop hS).2⟩
+
+/-! ## existence over ℝ, and the statements without fixed-point hypotheses -/
+
+/-- **T1 `vStar_exists`.** Over ℝ the optimal value exists (Banach fixed point of the
+    β-contraction `bellman P β`), for every well-formed problem and `β ∈ [0,1)`. -/
+theorem vStar_exists {P : Prob ℝ} (hP : WF P) {β : ℝ} (hβ0 : 0 ≤ β) (hβ1 : β < 1) :
+    ∃ vS, bellman P β vS = vS :=
+  exists_fixed_of_close (n := P.length) (bellman P β) (fun v => by simp) hβ0 hβ1 fun c hc v w h =>
+    bellman_close (fun a ha x hx => (hP.stoch a ha x hx).sub) hβ0 hc h
+
+/-- over ℝ every policy of the right length has a value (fixed point of `T_σ`) -/
+theorem vPolicy_exists {P : Prob ℝ} (hP : WF P) {β : ℝ} (hβ0 : 0 ≤ β) (hβ1 : β < 1)
+    {σ : List ℕ} (hσ : σ.length = P.length) : ∃ w, tSigma P β σ w = w :=
+  exists_fixed_of_close (n := P.length) (tSigma P β σ) (fun v => by simp [tSigma_length, hσ]) hβ0 hβ1
+    fun c hc v w h => tSigma_close (fun a ha x hx => (hP.stoch a ha x hx).sub) hβ0 hc σ h
+
+/-- **value iteration, closed statement over ℝ.** For every well-formed problem, `β ∈ [0,1)`,
+    `ε > 0`, start vector of the right length and cap: there is an optimal value `vS`
+    (`T vS = vS`, dominating the value of every feasible policy) such that, whenever value
+    iteration stops through its tolerance test, the returned `v` is within `ε/2` of `vS`, the
+    returned policy is feasible, has a value `w`, and `‖w − vS‖ < ε`. -/
+theorem vi_correct_real {P : Prob ℝ} (hP : WF P) {β ε : ℝ} (hβ0 : 0 ≤ β) (hβ1 : β < 1) (hε : 0 < ε)
+    {vInit : List ℝ} (hv0 : vInit.length = P.length) (maxIter : ℕ) :
+    ∃ vS, bellman P β vS = vS ∧
+      (∀ σ w, Feasible P σ → tSigma P β σ w = w → LeAdd 0 w vS) ∧
+      ((valueIteration P β ε vInit maxIter).stopped = true →
+        supDist (valueIteration P β ε vInit maxIter).v vS < ε / 2 ∧
+        Feasible P (valueIteration P β ε vInit maxIter).sigma ∧
+        ∃ w, tSigma P β (valueIteration P β ε vInit maxIter).sigma w = w ∧ supDist w vS < ε) := by
+  obtain ⟨vS, hS⟩ := vStar_exists hP hβ0 hβ1
+  refine ⟨vS, hS, (vStar_dominates hP hβ0 hβ1 hS).1, fun hstop => ?_⟩
+  have hσl : (valueIteration P β ε vInit maxIter).sigma.length = P.length := by
+    simp [valueIteration]
+  obtain ⟨w, hw⟩ := vPolicy_exists hP hβ0 hβ1 hσl
+  have h := vi_policy_eps_optimal hP hβ0 hβ1 hε hv0 maxIter hS hstop hw
+  exact ⟨vi_stop_half_eps hP hβ0 hβ1 hε hv0 maxIter hS hstop, h.1, w, hw, h.2⟩
+
+/-- **modified policy iteration, closed statement over ℝ** (same shape as `vi_correct_real`) -/
+theorem mpi_correct_real {P : Prob ℝ} (hP : WF P) {β ε : ℝ} (hβ0 : 0 ≤ β) (hβ1 : β < 1) (hε : 0 < ε)
+    {vInit : List ℝ} (hv0 : vInit.length = P.length) (maxIter k : ℕ) :
+    ∃ vS, bellman P β vS = vS ∧
+      (∀ σ w, Feasible P σ → tSigma P β σ w = w → LeAdd 0 w vS) ∧
+      ((modifiedPI P β ε vInit maxIter k).stopped = true →
+        supDist (modifiedPI P β ε vInit maxIter k).v vS < ε / 2 ∧
+        Feasible P (modifiedPI P β ε vInit maxIter k).sigma ∧
+        ∃ w, tSigma P β (modifiedPI P β ε vInit maxIter k).sigma w = w ∧ supDist w vS < ε) := by
+  obtain ⟨vS, hS⟩ := vStar_exists hP hβ0 hβ1
+  refine ⟨vS, hS, (vStar_dominates hP hβ0 hβ1 hS).1, fun hstop => ?_⟩
+  have h := mpi_stop hP hβ0 hβ1 hε hv0 maxIter k hS hstop
+  have hσl : (modifiedPI P β ε vInit maxIter k).sigma.length = P.length :=
+    (Forall₂.length_eq h.2.1).symm
+  obtain ⟨w, hw⟩ := vPolicy_exists hP hβ0 hβ1 hσl
+  exact ⟨h.1, h.2.1, w, hw, h.2.2 w hw⟩
+
+/-! ## non-vacuity: Puterman's two-state example (ddp.py docstring), β = 1/2 -/
+
+/-- state 0: action 0 (r = 5, q = (½,½)), action 1 (r = 10, q = (0,1)); state 1: action 0
+    (r = −1, q = (0,1)) -/
+def exP : Prob ℚ := [[⟨0, 5, [1/2, 1/2]⟩, ⟨1, 10, [0, 1]⟩], [⟨0, -1, [0, 1]⟩]]
+
+example : WF exP := by
+  refine ⟨by simp [exP], by simp [exP], ?_⟩
+  intro acts ha x hx
+  simp only [exP, mem_cons, not_mem_nil, or_false] at ha
+  rcases ha with rfl | rfl
+  · simp only [mem_cons, not_mem_nil, or_false] at hx
+    rcases hx with rfl | rfl <;> refine ⟨?_, ?_, ?_⟩ <;> (simp [exP]; try norm_num)
+  · simp only [mem_cons, not_mem_nil, or_false] at hx
+    subst hx
+    refine ⟨?_, ?_, ?_⟩ <;> simp [exP]
+
+/-- the optimal value of the example is `(9, −2)` … -/
+example : bellman exP (1/2) [9, -2] = [9, -2] := by decide +kernel
+/-- … value iteration started at `(0,0)` with `ε = 1/10` stops by its tolerance test after 6
+    iterations (hypothesis `hstop` of `vi_stop_half_eps` holds) … -/
+example : (valueIteration exP (1/2) (1/10) [0, 0] 250).stopped = true := by decide +kernel
+example : (valueIteration exP (1/2) (1/10) [0, 0] 250).iters = 6 := by decide +kernel
+example : (valueIteration exP (1/2) (1/10) [0, 0] 250).sigma = [1, 0] := by decide +kernel
+/-- … and policy iteration with the exact solver of the driver leaves through `break`. -/
+example : (policyIteration solveRat exP (1/2) [0, 0] 250).stopped = true := by decide +kernel
+example : (policyIteration solveRat exP (1/2) [0, 0] 250).v = [9, -2] := by decide +kernel
+/-- the exact solver returns the fixed point of `T_σ` on this example (hypothesis `hsolve`) -/
+example : tSigma exP (1/2) [1, 0] (evalPolicy solveRat exP (1/2) [1, 0])
+    = evalPolicy solveRat exP (1/2) [1, 0] := by decide +kernel
+/-- modified policy iteration (k = 3, default start `min r/(1−β)`) stops by its span test -/
+example : (modifiedPI exP (1/2) (1/10) (mpiInit exP (1/2)) 250 3).stopped = true := by decide +kernel
+example : (modifiedPI exP (1/2) (1/10) (mpiInit exP (1/2)) 250 3).v = [9, -2] := by decide +kernel
+/-- the example in product form (action 1 infeasible in state 1) and as shuffled pairs -/
+example : ofProduct [[some 5, some 10], [some (-1), none]]
+    [[[1/2, 1/2], [0, 1]], [[0, 1], [1/2, 1/2]]] = exP := by decide +kernel
+example : ofPairs 2 [1, 0, 0] [0, 1, 0] [-1, 10, 5] [[0, 1], [0, 1], [1/2, 1/2]] = exP := by
+  decide +kernel
+example : toPairs exP = [(0, 0, 5, [1/2, 1/2]), (0, 1, 10, [0, 1]), (1, 0, -1, [0, 1])] := by
+  decide +kernel
+example : bellmanProd [[some 5, some 10], [some (-1), none]]
+    [[[1/2, 1/2], [0, 1]], [[0, 1], [(1/2 : ℚ), 1/2]]] (1/2) [0, 0] = [(some 10, 1), (some (-1), 0)] := by
+  decide +kernel
+/-- the exact solver solves the system posed for the policy (1, 0) (instance of `SolvesExactly`) -/
+example : Forall₂ (fun row b => dot row (evalPolicy solveRat exP (1/2) [1, 0]) = b)
+    (policyMatrix (1/2) (polActs exP [1, 0])) ((polActs exP [1, 0]).map fun y => y.r) := by
+  decide +kernel
+/-- the example has 2 feasible policies: the bound of `pi_terminates` is `max_iter ≥ 4` -/
+example : (allPolicies exP).length = 2 := by decide +kernel
+/-- the LP model on the example, with the code's tolerances, reports success (hypothesis of
+    `lp_exit_partial`) and returns the optimal value and policy -/
+example : (lpSolve ratPivTol exP (1/2) [0, 0] 500).stopped = true := by decide +kernel
+example : (lpSolve ratPivTol exP (1/2) [0, 0] 500).v = [9, -2] := by decide +kernel
+example : (lpSolve ratPivTol exP (1/2) [0, 0] 500).sigma = [1, 0] := by decide +kernel
+example : tSigma exP (1/2) (lpSolve ratPivTol exP (1/2) [0, 0] 500).sigma
+    (lpSolve ratPivTol exP (1/2) [0, 0] 500).v = (lpSolve ratPivTol exP (1/2) [0, 0] 500).v := by
+  decide +kernel
+/-- with `max_iter = 2` the cap is hit instead: `stopped = false`, `num_iter = max_iter` -/
+example : (valueIteration exP (1/2) (1/10) [0, 0] 2).stopped = false := by decide +kernel
 
 end QE.C01
